@@ -181,7 +181,7 @@ func workerMain(t *testing.T) {
 	for i := spec.From; i < spec.To; i++ {
 		fmt.Fprintf(os.Stderr, "@%d\n", i)
 		sc := GenScenario(p, spec.Tier, spec.Seed, i)
-		out := execute(t, sc, false)
+		out := execute(t, sc, i%detEvery == 0)
 		ri := &props.RunInfo{}
 		vs := p.Check(out, ri)
 		res.Runs++
@@ -210,10 +210,28 @@ func workerMain(t *testing.T) {
 			res.Samples = append(res.Samples, b)
 		}
 		if i%detEvery == 0 {
-			out2 := execute(t, GenScenario(p, spec.Tier, spec.Seed, i), false)
+			out2 := execute(t, GenScenario(p, spec.Tier, spec.Seed, i), true)
 			res.DetRuns++
 			if out2.LogHash != out.LogHash {
 				res.DetMismatch = append(res.DetMismatch, i)
+				a, b := out.W.Log.Lines, out2.W.Log.Lines
+				for k := 0; k < len(a) || k < len(b); k++ {
+					la, lb := "<end>", "<end>"
+					if k < len(a) {
+						la = a[k]
+					}
+					if k < len(b) {
+						lb = b[k]
+					}
+					if la != lb {
+						ctx := ""
+						for j := max(0, k-6); j < k; j++ {
+							ctx += " | " + a[j]
+						}
+						res.HarnessErrors = append(res.HarnessErrors, fmt.Sprintf("nondeterminism at index %d line %d: %q vs %q; before:%s", i, k, la, lb, ctx))
+						break
+					}
+				}
 			}
 		}
 		if spec.Single {
